@@ -39,7 +39,7 @@ NamedTD(id) ==
     [] id = "RecTree" -> TStruct(<<Fld("Name", <<78, 97, 109, 101>>, TScalar("string")),
                                    Fld("Kids", <<75, 105, 100, 115>>, TSlice(TNamed("RecTree"))),
                                    FldO("Idx", <<73, 100, 120>>, <<"omitempty">>, TMap(TPtr(TNamed("RecTree"))))>>)
-    [] OTHER -> TStruct(<<Fld("A", <<65>>, TScalar("int"))>>)        \* ZeroT ZeroP FoldT FoldObj
+    [] OTHER -> TStruct(<<Fld("A", <<65>>, TScalar("int"))>>)        \* ZeroT ZeroP FoldT FoldObj RegT RegObj
 Resolve(T) == IF T.k = "named" /\ T.id \notin RefuseIds THEN NamedTD(T.id) ELSE T
 
 Opt(f, o) == \E j \in 1..Len(f.opts) : f.opts[j] = o
@@ -55,19 +55,23 @@ VArr(items) == [k |-> "arr", v |-> items]
 VObj(members, unord) == [k |-> "obj", v |-> members, unord |-> unord]
 IsLeafV(x) == x.k \notin {"arr", "obj"}
 DigitStr(c) == <<70, 48 + c[9]>>          \* FoldT folds as "F<A>" (A in 0..9)
+RegStr(c) == <<82, 48 + c[9]>>            \* RegT: registered folder, folds as "R<A>"
+StrFolderIds == {"FoldT", "RegT"}         \* custom folders emitting a string
+ObjFolderIds == {"FoldObj", "RegObj"}     \* custom folders emitting an object {fa|ra: A}
+ObjFolderKey(id) == IF id = "FoldObj" THEN <<102, 97>> ELSE <<114, 97>>
 
 \* ---- types the library must refuse (fold side) ----------------------------------
 RECURSIVE InlineBaseOK(_, _), FoldRefused(_, _), StaticInlineOK(_)
 \* inline needs a struct, a string-keyed map, or an interface holding one (through pointers)
 StaticInlineOK(T0) ==
   LET T == Resolve(T0) IN
-  CASE T0.k = "named" /\ T0.id = "FoldT" -> FALSE          \* its Fold method emits a string, not an object
+  CASE T0.k = "named" /\ T0.id \in StrFolderIds -> FALSE          \* the custom folder emits a string, not an object
     [] T.k \in {"struct", "map", "iface"} -> TRUE
     [] T.k = "ptr" -> StaticInlineOK(T.e[1])
     [] OTHER -> FALSE
 InlineBaseOK(T0, v) ==
   LET T == Resolve(T0) IN
-  CASE T0.k = "named" /\ T0.id = "FoldT" -> FALSE
+  CASE T0.k = "named" /\ T0.id \in StrFolderIds -> FALSE
     [] T.k \in {"struct", "map"} -> TRUE
     [] T.k = "ptr" -> IF v.nil THEN StaticInlineOK(T.e[1]) ELSE InlineBaseOK(T.e[1], v.e[1])
     [] T.k = "iface" -> v.nil \/ InlineBaseOK(v.dyn[1], v.e[1])
@@ -124,7 +128,7 @@ HasDupNames(T) == LET n == MemberNames(T) IN \E a, b \in 1..Len(n) : a # b /\ n[
 RECURSIVE HasCustomFolder(_, _), UnfoldMayRefuse(_, _)
 HasCustomFolder(T, depth) ==
   IF depth = 0 THEN FALSE
-  ELSE CASE T.k = "named" -> T.id \in {"FoldT", "FoldObj"}
+  ELSE CASE T.k = "named" -> T.id \in {"FoldT", "FoldObj", "RegT", "RegObj"}
          [] T.k \in {"ptr", "slice", "array", "map"} -> HasCustomFolder(T.e[1], depth - 1)
          [] T.k = "struct" -> \E j \in 1..Len(T.f) : HasCustomFolder(T.f[j].t, depth - 1)
          [] OTHER -> FALSE
@@ -161,7 +165,8 @@ RECURSIVE FoldSem(_, _, _), Members(_, _, _, _), InlineMembers(_, _, _), HasInli
 FoldSem(T0, v, look) ==
   LET T == Resolve(T0) IN
   CASE T0.k = "named" /\ T0.id = "FoldT" -> EvStr(DigitStr(v.f[1].v))
-    [] T0.k = "named" /\ T0.id = "FoldObj" -> VObj(<<[key |-> <<102, 97>>, val |-> v.f[1]]>>, FALSE)
+    [] T0.k = "named" /\ T0.id = "RegT" -> EvStr(RegStr(v.f[1].v))
+    [] T0.k = "named" /\ T0.id \in ObjFolderIds -> VObj(<<[key |-> ObjFolderKey(T0.id), val |-> v.f[1]]>>, FALSE)
     [] T.k \in ScalarKinds -> v
     [] T.k = "ptr" -> IF v.nil THEN EvNil ELSE FoldSem(T.e[1], v.e[1], look)
     [] T.k = "iface" -> IF v.nil THEN EvNil ELSE FoldSem(v.dyn[1], v.e[1], look)
@@ -179,7 +184,7 @@ Members(fs, vs, j, look) ==
        here \o Members(fs, vs, j + 1, look)
 InlineMembers(T0, x, look) ==
   LET T == Resolve(T0) IN
-  CASE T0.k = "named" /\ T0.id = "FoldObj" -> <<[key |-> <<102, 97>>, val |-> x.f[1]]>>   \* as its Fold method emits them
+  CASE T0.k = "named" /\ T0.id \in ObjFolderIds -> <<[key |-> ObjFolderKey(T0.id), val |-> x.f[1]]>>   \* as the custom folder emits them
     [] T.k = "ptr" -> IF x.nil THEN <<>> ELSE InlineMembers(T.e[1], x.e[1], look)
     [] T.k = "iface" -> IF x.nil THEN <<>> ELSE InlineMembers(x.dyn[1], x.e[1], look)
     [] T.k = "struct" -> Members(T.f, x.f, 1, look)
@@ -287,7 +292,7 @@ RECURSIVE Exp(_, _, _), ExpFields(_, _, _)
 ZeroLeafOld(old) == old
 Exp(T0, old, sv) ==
   LET T == Resolve(T0) IN
-  CASE T0.k = "named" /\ T0.id \in {"FoldT", "FoldObj", "ZeroT", "ZeroP"} -> Unspec
+  CASE T0.k = "named" /\ T0.id \in {"FoldT", "FoldObj", "ZeroT", "ZeroP", "RegT", "RegObj"} -> Unspec
     [] T.k = "iface" -> sv                                   \* generic data: the stream's value itself
     [] T.k = "ptr" -> IF sv.k = "nil" THEN EvNil
                       ELSE IF old.k = "fresh" \/ old.nil THEN Exp(T.e[1], [k |-> "fresh"], sv) ELSE Exp(T.e[1], old.e[1], sv)
